@@ -505,4 +505,41 @@ def r9(F, R):
     R.floor(6)
 
 
-RULES = [("R1", r1, ["default", "all"]), ("R2", r2, ["zoo:default"]), ("R3", r3, ["zoo:default"]), ("R4", r4, ["zoo:default"]), ("R5", r5, ["zoo:default"]), ("R6", r6, ["default", "all"]), ("R7", r7, ["default", "all"]), ("R8", r8_entry, ["default", "all"]), ("R9", r9, ["zoo:default"])]
+def r10_str_eq(F, R):
+    """The compile-time guard every `expr =` attribute with a custom parameter expands to (`str_eq(<name in the expression>, <Arg as
+    Parameter>::NAME)`): the generated code trusts it and uses the argument type's REGEX.  On its path table (two loop iterations unrolled): it
+    answers `true` only after having established that both lengths are equal (or the answer itself depends on both lengths), and a byte
+    mismatch answers `false`."""
+    from . import deep as D
+    bs = [b for b in F.crate_bodies() if re.search(r"(^|::)codegen::str_eq$", b.name)]
+    if len(bs) != 1:
+        raise Unverifiable(f"codegen::str_eq: {len(bs)}")
+    b = bs[0]
+    rows = D.Deep(F, b, max_paths=200, unroll=2).run()
+    if not rows:
+        raise Unverifiable("str_eq: empty table")
+    is_len = lambda t, k: isinstance(t, tuple) and t and ((t[0] == "call" and re.search(r"::len$", t[1])) or (t[0] == "un" and "Metadata" in str(t[1]))) and D.mentions(t, lambda y: y == ("arg", k))
+    def len_eq(a, o):
+        return a[0] == "bin" and ((a[1] == "Eq" and o is True) or (a[1] == "Ne" and o is False)) and ((is_len(a[2], 1) and is_len(a[3], 2)) or (is_len(a[2], 2) and is_len(a[3], 1)))
+    def byte_cmp(a):
+        return a[0] == "bin" and a[1] in ("Eq", "Ne") and all(isinstance(x, tuple) and x and x[0] == "index" for x in (a[2], a[3])) and \
+            {1, 2} <= {k for x in (a[2], a[3]) for k in (1, 2) if D.mentions(x, lambda y, k=k: y == ("arg", k))}
+    n_true = n_mis = 0
+    for p in rows:
+        conds = " ∧ ".join(f"{D.fmt(b, a)[:40]}={o}" for a, o in p.conds[:4]) or "always"
+        mism = any(byte_cmp(a) and ((a[1] == "Eq" and o is False) or (a[1] == "Ne" and o is True)) for a, o in p.conds)
+        if mism and not p.cut:
+            n_mis += 1
+            R.check(p.ret == ("const", False), "str-eq/mismatch-is-false", b, "a differing byte => false", f"[{conds}] str_eq does not answer `false` after finding a differing byte")
+        if p.cut or p.ret == ("const", False):
+            continue
+        n_true += 1
+        both = any(len_eq(a, o) for a, o in p.conds) or (any(is_len(x, 1) for x in D.subterms(p.ret)) and any(is_len(x, 2) for x in D.subterms(p.ret)))
+        R.check(both, "str-eq/true-needs-equal-lengths", b, "`true` only with equal lengths",
+                f"[{conds}] str_eq can answer `true` ({D.fmt(b, p.ret)[:40]}) without the two lengths having been compared: a parameter name that is a proper prefix of "
+                f"(or has as prefix) the argument type's NAME passes the compile-time guard and the step silently never matches")
+    R.check(n_true >= 1 and n_mis >= 1, "str-eq/table", b, f"{n_true} rows answering true, {n_mis} mismatch rows", f"str_eq table: true rows {n_true}, mismatch rows {n_mis}")
+    R.floor(3)
+
+
+RULES = [("R1", r1, ["default", "all"]), ("R2", r2, ["zoo:default"]), ("R3", r3, ["zoo:default"]), ("R4", r4, ["zoo:default"]), ("R5", r5, ["zoo:default"]), ("R6", r6, ["default", "all"]), ("R7", r7, ["default", "all"]), ("R8", r8_entry, ["default", "all"]), ("R9", r9, ["zoo:default"]), ("R10", r10_str_eq, ["default", "all"])]
